@@ -832,6 +832,48 @@ func f§(s string) string {
 }
 `, k), ""
 	}},
+	{name: "arrayValues", gen: func(r *rand.Rand, k int) (string, string) {
+		return rep(`
+type pair§ [2]*string
+type wrap§ struct {
+	p pair§
+	q [1]struct{ s *string }
+}
+
+func zero§() pair§ { return pair§{} }
+func mkp§(s *string) pair§ {
+	var a pair§
+	a[0] = s
+	return a
+}
+
+func f§(s string) string {
+	a := mkp§(&s)
+	b := zero§()
+	pa := &a
+	*pa = b
+	*pa = mkp§(&s)
+	var w wrap§
+	w.p = *pa
+	w.q[0].s = a[1]
+	c := [2]pair§{a, w.p}
+	m := map[string]pair§{"k": a}
+	ch := make(chan pair§, 1)
+	ch <- m["k"]
+	d := <-ch
+	go func(x pair§) { _ = x }(d)
+	if c[0] == c[1] && d[0] != nil {
+		return *c[1][0] + *d[0]
+	}
+	for _, e := range c {
+		if e[0] != nil {
+			return *e[0]
+		}
+	}
+	return s
+}
+`, k), ""
+	}},
 	{name: "stdStrings", std: []string{"strings", "fmt", "strconv", "errors"}, stdOnly: true, gen: func(r *rand.Rand, k int) (string, string) {
 		return rep(`
 func f§(s string) string {
